@@ -178,7 +178,7 @@ func processFile(filePath string, ctxt *processors.Context, checkOnly bool) erro
 		return err
 	}
 
-	scanner := bufio.NewScanner(parsedBytes)
+	scanner := utils.NewLineScanner(parsedBytes)
 	scanner.Split(bufio.ScanLines)
 	lines := []string{}
 
